@@ -162,6 +162,36 @@ def check(ctx):
                               {'args': [T.pretty(x)[:200] for x in a['args']],
                                'accumulator': a.get('targs')})
             comb = ('hcall', 'hep::accumulate') + tuple(a['args'])
+            # the decision must be a function of the target and of that combination only: in
+            # particular not of state the callback object collected in earlier calls (a resumed run
+            # starts with a fresh callback) and not of the last result alone
+            foreign = []
+            masked = T.subst(ret, {comb: sym('__combination__')})
+            for t in T.subterms(masked):
+                if isinstance(t, tuple) and t and t[0] == 'fld':
+                    base_ = t
+                    while isinstance(base_, tuple) and base_ and base_[0] in ('fld', 'sel'):
+                        base_ = base_[1]
+                    if base_ == sym('__combination__') or t == target:
+                        continue
+                    if base_ == sym('this') and t[1] == sym('this') and t[2] == 'target_rel_err_':
+                        continue
+                    if T.occurs(t, sym('__combination__')):
+                        continue
+                    if t not in foreign and not any(T.occurs(f_, t) for f_ in foreign):
+                        foreign.append(t)
+            foreign = [t for t in foreign if not any(o is not t and T.occurs(o, t) for o in foreign)]
+            if a['pc'] != () or foreign:
+                ctx.violation('R3.decision_from_checkpoint_only', where, 'the stop decision is not a function '
+                              'of (target, variance-weighted combination of all results of the checkpoint): it '
+                              'depends on %s' % (', '.join(T.pretty(t)[:80] for t in foreign[:4]) or
+                                                 'a combination that is only computed under ' + T.pretty(T.conj(a['pc']))[:120]),
+                              {'decision': T.pretty(ret)[:500],
+                               'consequence': 'a run resumed from a checkpoint constructs a new callback and '
+                               'decides differently from the uninterrupted run'})
+                return
+            ctx.holds('R3.decision_from_checkpoint_only', where, 'the decision depends only on the target and on '
+                      'the combination of all results of the checkpoint handed in')
             from .C13 import value_of, variance_of
             val = value_of(p, comb)
             err = ('fn', 'sqrt', variance_of(p, comb))
